@@ -281,6 +281,50 @@ ModRefused(c) == LET r == Reach(c.g, MainImports(c.site), {}) IN
                  \/ "nope" \in r
                  \/ (c.g = 5 /\ {"m1", "m2"} \cap r # {}) \/ (c.g = 6 /\ "m1" \in r) \/ (c.g = 9 /\ {"m1", "m2", "m3"} \cap r # {})
 
+(* ------------------------------------------- C10: fragment sessions *)
+\* top-level statement sequences; a session cuts them into consecutive fragments
+FragSeqs == <<
+  \* closure created, later assignment to the captured variable, calls in later fragments
+  <<Def("x", I(1)), Def("f", Fn0(<<Inc("x"), Ret(Id("x"))>>)), Asg("x", I(10)), ExprS(C0(Id("f"))), ExprS(Arr(<<Id("x"), C0(Id("f"))>>))>>,
+  \* block that re-uses local slots, then declarations after it
+  <<Def("x", I(1)), If(T, <<Def("a", I(5)), Def("b", I(6)), Log(Bin("+", Id("a"), Id("b")))>>, <<>>), Def("y", I(2)),
+    If(T, <<Def("c", I(7)), Asg("x", Id("c"))>>, <<>>), ExprS(Arr(<<Id("x"), Id("y")>>))>>,
+  \* const / iota group, later use; variadic function
+  <<ConstG(<<"c0", "c1", "c2">>, Id("iota")), Def("y", Bin("+", Id("c2"), I(40))), Def("g", Fn(<<"a", "b">>, TRUE, <<Ret(Arr(<<Id("a"), Id("b"), Id("y")>>))>>)),
+    ExprS(Call(Id("g"), <<I(1), I(2), I(3)>>)), ExprS(Id("c1"))>>,
+  \* imports and state of the module object across fragments
+  <<Def("m", Import("m1")), AsgS(Id("m"), "c", I(3)), Def("n", Import("m1")), ExprS(Sel(Id("n"), "c")), ExprS(Sel(Import("m1"), "n"))>>,
+  \* try statements and the variables they declare
+  <<Def("r", Arr(<<>>)), Try(<<Thr(S("e"))>>, TRUE, "er", <<Asg("r", Bin("+", Id("r"), S("c")))>>, TRUE, <<Asg("r", Bin("+", Id("r"), S("f")))>>),
+    Try(<<Asg("r", Bin("+", Id("r"), S("t")))>>, FALSE, "", <<>>, TRUE, <<Asg("r", Bin("+", Id("r"), S("g")))>>), ExprS(Id("r")), ExprS(C1(Id("len"), Id("r")))>>,
+  \* a failing fragment in the middle: later fragments are not compared
+  <<Def("x", I(1)), ExprS(Bin("+", Id("x"), I(1))), ExprS(Idx(Arr(<<>>), I(1))), Asg("x", I(5)), ExprS(Id("x"))>>,
+  \* globals and a function declared in one fragment, redefined variable captured by two closures
+  <<Global(<<"gv">>), Def("k", I(0)), Def("inc", Fn0(<<Cmp("k", "+", I(1)), Asg("gv", Id("k")), Ret(Id("k"))>>)), ExprS(C0(Id("inc"))),
+    ExprS(Arr(<<C0(Id("inc")), Id("k"), Id("gv")>>))>>,
+  \* var without value, nested function using a later-assigned variable, for loop with closure
+  <<Var("h"), Def("fs", Arr(<<>>)), For(<<Def("i", I(0))>>, Bin("<", Id("i"), I(2)), <<Inc("i")>>, <<Def("t", Id("i")), Push1(Fn0(<<Ret(Id("t"))>>))>>),
+    Asg("h", Idx(Id("fs"), I(1))), ExprS(Arr(<<C0(Id("h")), C0(Idx(Id("fs"), I(0)))>>))>>
+>>
+FragIdx == [f : {"frag"}, s : 1..Len(FragSeqs), cut : SUBSET (1..4)]
+\* execute the statements one after another in one scope, recording for each the value a fragment
+\* ending there returns (value of an expression statement, else undefined) or the error
+RECURSIVE FragRun(_,_,_,_,_)
+FragRun(b, i, env, st, acc) ==
+  IF i > Len(b) THEN [res |-> acc, st |-> st]
+  ELSE LET s == b[i] IN
+       IF s.k = "expr"
+       THEN LET r == Eval(s.e, env, st, 0) IN
+            IF r.ok THEN FragRun(b, i + 1, env, r.st, Append(acc, [ok |-> TRUE, v |-> San(r.v, r.st), nlog |-> Len(r.st.log)]))
+            ELSE [res |-> Append(acc, [ok |-> FALSE, v |-> San(r.v, r.st), nlog |-> Len(r.st.log)]), st |-> r.st]
+       ELSE LET r == ExecS(s, env, st, 0) IN
+            IF r.o = Norm THEN FragRun(b, i + 1, r.env, r.st, Append(acc, [ok |-> TRUE, v |-> VUndef, nlog |-> Len(r.st.log)]))
+            ELSE [res |-> Append(acc, [ok |-> FALSE, v |-> San(r.o[2], r.st), nlog |-> Len(r.st.log)]), st |-> r.st]
+FragExp(c) == LET p == [P0(FragSeqs[c.s]) EXCEPT !.mods = ModsOf(1)]
+                  st0 == [St0 EXCEPT !.msrc = p.mods]
+                  r == FragRun(p.body, 1, Push(<<>>), st0, <<>>)
+              IN [steps |-> r.res, log |-> [i \in 1..Len(r.st.log) |-> San(r.st.log[i], r.st)]]
+
 (* ---------------------------------------------------------- the states *)
 FamSeq(f) == CASE f = "closure" -> Closure [] f = "assign" -> Assign [] f = "const" -> ConstProgs
 ListIdx == UNION { {[f |-> x, i |-> i] : i \in 1..Len(FamSeq(x))} : x \in Fams \cap {"closure", "assign", "const"} }
@@ -294,6 +338,7 @@ AllIdx == ListIdx
           \cup (IF "cond" \in Fams THEN CondIdx ELSE {})
           \cup (IF "dis" \in Fams THEN DisIdx \cup DisModIdx ELSE {})
           \cup (IF "mod" \in Fams THEN ModIdx ELSE {})
+          \cup (IF "frag" \in Fams THEN FragIdx ELSE {})
 ProgOf(c) == CASE c.f \in {"closure", "assign", "const"} -> P0(FamSeq(c.f)[c.i])
                [] c.f = "call" -> P0(CallProg(c))
                [] c.f = "rec" -> P0(RecProg(c))
@@ -305,6 +350,7 @@ ProgOf(c) == CASE c.f \in {"closure", "assign", "const"} -> P0(FamSeq(c.f)[c.i])
                [] c.f = "dis" -> [P0(ShadowProg(c.nm, c.i)) EXCEPT !.disabled = c.d]
                [] c.f = "dismod" -> [DisModProg(c) EXCEPT !.disabled = c.d]
                [] c.f = "mod" -> ModProg(c)
+               [] c.f = "frag" -> [P0(FragSeqs[c.s]) EXCEPT !.mods = ModsOf(1)]
 
 VARIABLES c, ph
 vars == <<c, ph>>
@@ -314,21 +360,23 @@ Next == Judge
 Spec == Init /\ [][Next]_vars
 
 \* the reference semantics is total on the families (no unmodelled construct, no divergence)
-Modelled == (ph = 1 /\ ~(c.f = "mod" /\ ModRefused(c))) => LET r == RunP(ProgOf(c)) IN
+Modelled == (ph = 1 /\ c.f # "frag" /\ ~(c.f = "mod" /\ ModRefused(c))) => LET r == RunP(ProgOf(c)) IN
               (ProgRefs(ProgOf(c)) \cap ProgOf(c).disabled = {}) =>
               ~(r.o[1] = "thr" /\ r.o[2].name \in {"unmodelled-builtin-call", "diverge", "unresolved"})
 \* a script that never mentions a disabled builtin as a builtin behaves as without the disabled set
 \* a module body runs at most once per run: "load:m" occurs at most once in the log
 LoadOnce == (ph = 1 /\ c.f = "mod" /\ ~ModRefused(c)) =>
    LET l == RunP(ProgOf(c)).log IN \A m \in {"m1", "m2", "m3"} : Cardinality({i \in 1..Len(l) : l[i].t = "str" /\ l[i].v = "load:" \o m}) <= 1
-DisabledIrrelevant == (ph = 1 /\ c.f # "mod") => LET p == ProgOf(c) IN
+DisabledIrrelevant == (ph = 1 /\ c.f \notin {"mod", "frag"}) => LET p == ProgOf(c) IN
    (ProgRefs(p) \cap p.disabled = {}) => RunP(p) = RunP([p EXCEPT !.disabled = {}])
 \* the reference semantics determines the observation (operand combinations outside its
 \* fragment are still replayed and compared across compiler configurations)
 RefKnown(p) == LET r == RunP(p) IN ~(r.o[1] = "thr" /\ r.o[2].name = "unmodelled-op")
 FoldExprKnown(cc) == RefKnown(P0(<<Ret(Bin(FoldOps[cc.op], FoldVals[cc.a], FoldVals[cc.b]))>>))
 NoExp == [o |-> <<"ret", VUndef>>, log |-> <<>>, globals |-> <<>>]
-Export == ph = 1 => LET p == ProgOf(c)  mref == (c.f = "mod" /\ ModRefused(c)) IN
+ExportFrag == (ph = 1 /\ c.f = "frag") =>
+   CSVWrite("%1$s", <<ToJson([fam |-> c.f, id |-> [f |-> c.f, s |-> c.s, cut |-> c.cut], prog |-> ProgOf(c), frag |-> FragExp(c)])>>, IOEnv.OUT)
+Export == (ph = 1 /\ c.f # "frag") => LET p == ProgOf(c)  mref == (c.f = "mod" /\ ModRefused(c)) IN
    CSVWrite("%1$s", <<ToJson([fam |-> c.f, id |-> c, prog |-> p, exp |-> (IF mref THEN NoExp ELSE RunP(p)), modrefused |-> mref,
                               mayrefuse |-> (c.f = "fold" /\ FoldRaises(c)),
                               refknown |-> (IF c.f = "fold" THEN FoldExprKnown(c) ELSE IF mref THEN TRUE ELSE RefKnown(p)),
